@@ -10,7 +10,8 @@ COQ_OBLIG = ["C09/Property.v", "Gen/C09Oblig.v"]
 CASES_HEADER = "Require Import Nib.C09.Model Nib.C09.Spec Nib.C09.Sites Nib.C09.Check Nib.Gen.C09Facts."
 CASE_TYPE = "case"
 # the model the implementation is compared with follows the regenerated inventory of pointer sites:
-# Shared (the code as it is) unless every access to Keeper.Bank.StateDB is guarded against check-state contexts
+# Isolated (the code as it is since fix 509f604) when every access to Keeper.Bank.StateDB is guarded against
+# check-state contexts, Shared (the faithful model of the unguarded code) otherwise
 MISMATCH_FN = "mismatch_in (mode_of ptr_sites)"
 VIOLATES_FN = "violates"
 RULE = ("case = (deliver script: init code of a contract-creation EVM tx made of yield / native send / FunToken.bankMsgSend steps, "
@@ -45,7 +46,7 @@ QNAME = {
     "sim_bank": "Simulate:bank.MsgSend(unibi)", "grpc_bank": "gRPC:bank.Balance", "grpc_evm_balance": "gRPC:evm.Balance",
     "grpc_funtoken": "gRPC:evm.FunTokenMapping", "grpc_oracle": "gRPC:oracle.ExchangeRates",
 }
-# kinds that perform a unibi bank operation (the only way a request reaches Keeper.Bank.StateDB)
+# kinds that perform a unibi bank operation (the only way a request reached Keeper.Bank.StateDB before fix 509f604)
 BANKING = {"call_bank", "est_bank", "trace_bank", "sim_evm", "sim_evm_bank", "sim_bank"}
 
 
@@ -200,30 +201,37 @@ def model_search(chk):
 MANIFEST = {
     "level_claimed": {
         "category": "proof",
-        "text": ("PARTIAL. Coq interleaving model of the one piece of mutable data shared by block execution and read-only "
-                 "requests (the process-wide pointer Keeper.Bank.StateDB: publish/reuse in EthereumTx, mirror in every bank "
-                 "operation, deferred clear) with thread 0 = DeliverTx and threads 1.. = eth_call / estimateGas / traceTx / "
-                 "simulation / gRPC scripts, semantics over ALL schedules. Proved by induction over schedules: "
-                 "C09_noninterference_partial (+_sequential) — in the sub-model where request steps cannot dereference, publish "
-                 "or clear the pointer, committed state, written accounts and the tx result equal the sequential run of "
-                 "DeliverTx alone for every schedule; C09_interference_only_through_hazard + "
-                 "C09_hazard_is_bank_op_while_published — in the faithful model interference is possible only through a request's "
-                 "bank operation executed while the pointer is published (or a simulated EthereumTx publishing/clearing it); "
-                 "C09_noninterference_refuted — the faithful model violates the statement (5-step schedule). The faithful model "
-                 "is tied to /repo on every run: a go/ast inventory of the functions touching the pointer selects the model "
-                 "(C09_pointer_sites_known, C09_current_tree) and the model's prediction of ALL observables (app-hash equality, "
-                 "tx results, 7 balances on both replicas) is compared with two real replicas driven through "
-                 "BeginBlock/DeliverTx/EndBlock/Commit, with requests issued through app.Query / app.Simulate inside an in-flight "
-                 "EVM tx (yield precompile), before it, between two txs and after Commit. On the unchanged tree the refutation "
-                 "is REAL: open known finding F8 (unsigned balance changes / failed delivery), matched by precise signatures."),
+        "text": ("PARTIAL (schedules of real goroutines are exhibited by injection only). Coq interleaving model of the one piece of "
+                 "mutable data block execution and read-only requests could share (the process-wide pointer Keeper.Bank.StateDB: "
+                 "publish/reuse in EthereumTx & co., mirror in every bank operation, deferred clear), thread 0 = DeliverTx, threads "
+                 "1.. = eth_call / estimateGas / traceTx / simulation / gRPC scripts, semantics over ALL schedules. A go/ast "
+                 "inventory of every function touching the pointer is regenerated from /repo on each run; the obligations "
+                 "C09_every_access_guarded (every access sits behind ctx.IsCheckTx(), which is true for query, simulation and CheckTx "
+                 "contexts) and C09_pointer_sites_known hold for the current tree and break on a new unguarded access. For the model "
+                 "these facts select, C09_current_tree proves the FULL statement: for all request scripts, stores and schedules, the "
+                 "pointer and the whole deliver thread (committed ledger, written accounts, tx failure, result/event log) equal the "
+                 "run of DeliverTx alone, and (C09_current_tree_sequential) the complete sequential execution — by induction over "
+                 "schedules (C09_noninterference_partial is the same theorem stated for the Isolated model). For the unguarded "
+                 "(Shared) model, i.e. the tree before fix 509f604 or after its reversal, C09_noninterference_refuted gives a 5-step "
+                 "schedule and C09_interference_only_through_hazard / C09_hazard_is_bank_op_while_published characterise the only "
+                 "failure class. The selected model's prediction of all observables (app-hash equality, both tx results, 7 "
+                 "balances on two replicas) is compared on every run with real BeginBlock/DeliverTx/EndBlock/Commit executions in "
+                 "which requests go through app.Query / app.Simulate inside an in-flight EVM tx (yield precompile), before it, "
+                 "between two txs and after Commit; Pb (sound w.r.t. P) must hold on every observed pair."),
         "design_ref": "DESIGN.md §5 C09",
     },
-    "level_note": ("Real goroutine schedules are exhibited only by inline injection at yield points (pre-emption inside a request is "
-                   "covered by the model, not by the harness); TestRaceC09 gives -race evidence with real goroutines (103 reports, "
-                   "same committed corruption). Oracle values: gas used by the in-flight, tail and simulated txs. Relaxed "
-                   "comparison after a hazard: bank events surviving reverted frames, simulated EVM tx committing the shared "
-                   "StateDB inside a reverted frame. Trusted: Coq kernel + vm_compute, plugin rendering, kind→script table in "
-                   "Check.v (validated: 0 mismatches on > 9000 cases), syntactic guard recognition of the extractor (selects the "
-                   "model only). Candidate repair (31 added lines, suites green, check V=0) in the final report, not applied."),
-    "technique": "Coq proof (induction over schedules of an interleaving model, refutation by vm_compute) + generated pointer-site facts + differential replicas with requests injected at yield points",
+    "level_note": ("Theorems are about the model; real schedules are exhibited by inline injection at yield points (pre-emption inside a "
+                   "request is covered by the model only); TestRaceC09 gives -race evidence with real goroutines (before the fix: 103 "
+                   "reports + committed corruption; after: balances intact, 2 benign reports from value-receiver copies of "
+                   "NibiruBankKeeper). The guard recognition of the extractor is syntactic (two accepted forms) and only selects the "
+                   "model: M (model vs implementation) and V (Pb on the implementation) still decide. Oracle values: gas of the "
+                   "in-flight, tail and simulated txs (a gas difference without a model hazard is a mismatch). Shared-model comparison "
+                   "is relaxed after a hazard (events surviving reverted frames; simulated EVM tx committing the shared StateDB in a "
+                   "reverted frame). Remaining design caveats, outside the property: requests share nothing with DeliverTx nor with "
+                   "each other, so a simulated EVM tx (app.Simulate) no longer mirrors its own precompile bank operations into its "
+                   "own StateDB (as eth_call/estimateGas never did) — simulation fidelity only. Other process-wide state a future "
+                   "change might add is caught only if block execution observes it (the init code stores COINBASE, TIMESTAMP, NUMBER, "
+                   "PREVRANDAO, GASLIMIT, CHAINID, BASEFEE; the scenario block has a proposer, its neighbours none). Fix 509f604 "
+                   "came out of this check (findings: EthCall/EstimateGas/TraceTx bankMsgSend and any fee-paying Simulate)."),
+    "technique": "Coq proof (induction over schedules of an interleaving model; refutation of the unguarded model by vm_compute) + generated pointer-site facts selecting the model + differential replicas with requests injected at yield points",
 }
